@@ -52,9 +52,28 @@ class CheckC02(core.Check):
             self.exhaustive = True
         return descs
 
+    def extra_cfg_plans(self):
+        """thorough: hfs + Kyber1024 sessions on the hfs build (agreement only: Kyber draws its own randomness)"""
+        if self.tier != "thorough":
+            return []
+        rnd = random.Random(self.seed * 31 + 5)
+        descs = []
+        for p, ps in all_variants():
+            if p in ("N", "K", "X") or len(ps) > 1:
+                continue  # hfs cannot be combined with one-way patterns
+            for _ in range(2):
+                descs.append((make_name(p, ps, rnd.choice(DHS), rnd.choice(CIPHERS), rnd.choice(HASHES)), rnd.getrandbits(32), rnd.choice(["hfs-last", "hfs-first"])))
+        return [("B", descs)]
+
     def build(self, desc):
-        name, seed = desc
+        name, seed = desc[0], desc[1]
         parsed = parse_name_simple(name)
+        hfs = desc[2] if len(desc) > 2 else None
+        if hfs:
+            f = name.split("_")
+            mods = [m for m in parsed.mods]
+            mods = (mods + ["hfs"]) if hfs == "hfs-last" else (["hfs"] + mods)
+            name = "_".join([f[0], parsed.pattern + "+".join(mods), f[2] + "+Kyber1024", f[3], f[4]])
         rnd = random.Random(seed)
         c = Case("h-%s-%d" % (name, seed), desc)
         res = (rnd.choice(["D", "D", "R", "DR", "N"]), rnd.choice(["D", "D", "R", "DR", "N"]))
@@ -74,6 +93,8 @@ class CheckC02(core.Check):
             c.op("set_rs", "B", key="$pubA")
         c.meta["build"] = (c.op("build", "A"), c.op("build", "B"))
         maxp = sessions.max_payloads(parsed)
+        if hfs:
+            maxp = [m - 3300 for m in maxp]  # room for the KEM public key / ciphertext and their tags
         big = rnd.random() < 0.1
         pays = [sessions.payload_len_choice(rnd, m, 0.4 if big else 0.0) for m in maxp]
         if rnd.random() < 0.2:
